@@ -81,6 +81,13 @@ def cases(tier, seed):
             for e in ENDINGS:
                 yield dict(state=st, base='echo', op=['flood', nmsg], ending=e,
                            seed=seed * 7 + i)
+    # a syntactically valid A-ASSOCIATE-RQ / -AC whose Maximum Length value (1..6) cannot carry a
+    # single payload byte, after which the LOCAL side has something to send
+    for role in ('requestor', 'acceptor'):
+        for val in (1, 2, 5, 6):
+            for local in (16384, 0):
+                yield dict(state='Sta6' + role[0], base='ac' if role == 'requestor' else 'rq',
+                           op=['unusable-max', val, local], ending='fin', seed=seed * 31 + val)
     n = 600 if tier == 'quick' else 40000
     states = sorted(STATES)
     for i in range(n):
@@ -184,7 +191,101 @@ def _uk(e):
     return 'DIMSE'
 
 
+def _unusable_max(case):
+    """Real association layer (P2): the peer's announced maximum is 1..6."""
+    from pynetdicom2 import applicationentity, sopclass, exceptions
+    from ..world import SimWorld
+    from .. import peers
+    _, val, local = case['op']
+    role = 'requestor' if case['state'].endswith('r') else 'acceptor'
+    world = SimWorld('c12/um/%s/%s/%s' % (role, val, local))
+    viol = []
+    addr = ('peerhost', 104)
+
+    def v(rule, detail):
+        viol.append({'sig': 'C12 %s state=Sta6 peer-max=unusable role=%s' % (rule, role),
+                     'detail': '%s\ncase %r\nhandler errors %r' % (detail, case,
+                                                                   world.handler_errors[:1])})
+    try:
+        wire = []
+        out = {}
+        if role == 'requestor':
+            def factory(sock):
+                sock.peer.on_send = lambda s_, b: wire.append(b)
+                return peers.ScriptedAcceptor(world.sim, sock, max_length=val)
+            world.serve_peer(addr, factory)
+            cli = world.make_ae(applicationentity.ClientAE, 'CLI', [rc.IMPLICIT_LE], local)
+            cli.timeout = 30
+            cli.add_scu(sopclass.verification_scu)
+
+            def user():
+                try:
+                    with cli.request_association({'aet': 'SRV', 'address': addr[0],
+                                                  'port': addr[1]}) as assoc:
+                        out['st'] = int(assoc.get_scu(rc.VERIFICATION)(1))
+                except exceptions.NetDICOMError as e:
+                    out['exc'] = e
+                except Exception as e:  # pylint: disable=broad-except
+                    out['other'] = e
+            ut = world.spawn(user, 'user')
+        else:
+            srv = world.make_ae(applicationentity.AE, 'SRV', 11112, [rc.IMPLICIT_LE], local)
+            srv.timeout = 30
+            srv.add_scp(sopclass.verification_scp)
+            world.serve_ae(srv, addr)
+
+            def script(peer):
+                p = peer.associate()
+                out['reply'] = p
+                if peer.sock.peer is not None:
+                    peer.sock.peer.on_send = lambda s_, b: wire.append(b)
+                if not isinstance(p, dict) or p['kind'] != 'A-ASSOCIATE-AC':
+                    return
+                peer.send_message(1, {0x0002: rc.VERIFICATION, 0x0100: 0x0030, 0x0110: 1,
+                                      0x0800: 0x0101}, max_length=16384)
+                out['answer'] = peer.read_message(timeout=100.0)
+                if not peer.eof and not peer.reset:
+                    try:
+                        peer.release()
+                    except OSError:
+                        pass
+            pr = peers.ScriptedRequestor(world.sim, world.net, addr,
+                                         ((1, rc.VERIFICATION, (rc.IMPLICIT_LE,)),),
+                                         max_length=val, script=script)
+            ut = world.spawn(pr.run, 'peer', role='user')
+        world.run(tmax=600)
+        world.drain(5.0)
+        dead = [t for t in world.sim.tasks if t.role == 'dul' and t.exc is not None]
+        if dead:
+            v('loop-died exc=%s' % type(dead[0].exc).__name__, dead[0].tb or '')
+        if 'other' in out:
+            v('user-got-non-library-error exc=%s' % type(out['other']).__name__, repr(out['other']))
+        if not ut.done:
+            v('never-quiescent', 'user/peer task still waiting after 600 s')
+        live = [t.name for t in world.sim.tasks if t.role in ('dul', 'acceptor') and not t.done]
+        if live:
+            v('threads-left-running', repr(live))
+        open_socks = [s_ for s_ in world.net.sockets if not s_.closed]
+        if open_socks:
+            v('connection-left-open', '%d sockets' % len(open_socks))
+        pdus, rem = rc.parse_stream(b''.join(wire))
+        if rem or any(p['kind'] == 'MALFORMED' for p in pdus):
+            v('emitted-malformed-pdu', repr([p['kind'] for p in pdus]))
+        big = [p for p in pdus if p['kind'] == 'P-DATA-TF' and p['length'] > val]
+        if big:
+            v('emitted-pdu-beyond-announced-maximum', repr([p['length'] for p in big]))
+        sim = world.sim
+        return {'violations': viol, 'stats': dict(sim.stats, **{'probe.unusable_max': 1}),
+                'digest': sim.digest.hexdigest(), 'steps': sim.steps, 'vsecs': sim.now - 1000.0,
+                'nontrivial': True, 'sched_sig': 'um/%s/%s/%s' % (role, val, local),
+                'sample': {'case': case, 'observed': {k: repr(x)[:80] for k, x in out.items()}}}
+    finally:
+        world.close()
+
+
 def run_case(case):
+    if case['op'][0] == 'unusable-max':
+        return _unusable_max(case)
     role, prefix = STATES[case['state']]
     drv = c05.Driver(role, 'c12/%s' % case['seed'])
     viol = []
